@@ -1,6 +1,8 @@
 pub mod lsync {
     pub use lightning_signer::prelude::{Arc, Mutex};
 }
+pub mod c04;
+pub mod c05;
 pub mod chain;
 pub mod chain13;
 pub mod chainmc;
@@ -18,6 +20,7 @@ pub mod payflow;
 pub mod props;
 pub mod scenario;
 pub mod secretstore;
+pub mod txbase;
 pub mod velocity;
 pub mod vmc;
 pub mod world;
